@@ -164,6 +164,11 @@ func Generate(prop string, r *sim.Rand, tier string) *sim.Plan {
 		if r.Chance(0.35) {
 			cfg.Replicas = append(cfg.Replicas, Policy{ProofType: []string{"serial", "parallel"}[r.Intn(2)], Burst: r.Range(2, 4), Synced: r.Chance(0.3)})
 		}
+	case "C02", "C04", "C05", "C06", "C16":
+		// a second node handed the same blocks back to back must not accept an IBTP the judged node refused
+		if r.Chance(0.2) {
+			cfg.Replicas = append(cfg.Replicas, Policy{ProofType: cfg.Replicas[0].ProofType, Burst: r.Range(2, 4), Synced: r.Chance(0.3)})
+		}
 	}
 	switch prop {
 	case "C07", "C02", "C03", "C17", "C09", "C12", "C10":
